@@ -53,6 +53,7 @@ func main() {
 	must(os.MkdirAll(*out, 0o755))
 	replace := map[string]string{}
 
+	collectGenMaps(filepath.Join(*repo, "internal/cmd/tlgen/gen"))
 	var files []string
 	must(filepath.Walk(*repo, func(p string, fi os.FileInfo, err error) error {
 		if err != nil {
@@ -128,7 +129,7 @@ func mayNeedRewrite(src []byte) bool {
 			return true
 		}
 	}
-	return false
+	return bytes.Contains(src, []byte("package gen"))
 }
 
 func fail(f string, a ...any) {
@@ -238,6 +239,9 @@ func rewriteFile(path string, src []byte, rel string) ([]byte, bool, error) {
 		}
 		return true
 	})
+	if strings.Contains(filepath.ToSlash(rel), "internal/cmd/tlgen/gen/") {
+		r.ownGenMaps()
+	}
 	// function bodies
 	for _, d := range f.Decls {
 		fd, ok := d.(*ast.FuncDecl)
@@ -683,6 +687,113 @@ func (r *rw) wrapKeysReturns(b *ast.BlockStmt) {
 				inv.KeysOrder++
 			}
 		}
+		return true
+	})
+}
+
+// ---- generator map order -------------------------------------------------------------------------
+
+// genMapKeyTypes: names (struct fields and local variables of package gen) declared with a map type,
+// with the source text of their key type. Collected over the whole package directory once.
+var genMapKeyTypes map[string]ast.Expr
+
+func collectGenMaps(dir string) {
+	genMapKeyTypes = map[string]ast.Expr{}
+	fset := token.NewFileSet()
+	pkgs, err := parser.ParseDir(fset, dir, func(fi os.FileInfo) bool { return !strings.HasSuffix(fi.Name(), "_test.go") }, 0)
+	if err != nil {
+		return
+	}
+	for _, pkg := range pkgs {
+		for _, f := range pkg.Files {
+			ast.Inspect(f, func(n ast.Node) bool {
+				switch v := n.(type) {
+				case *ast.Field:
+					if mt, ok := v.Type.(*ast.MapType); ok {
+						for _, nm := range v.Names {
+							genMapKeyTypes[nm.Name] = mt.Key
+						}
+					}
+				case *ast.AssignStmt:
+					for i, rhs := range v.Rhs {
+						if call, ok := rhs.(*ast.CallExpr); ok && len(call.Args) >= 1 {
+							if id, ok := call.Fun.(*ast.Ident); ok && id.Name == "make" {
+								if mt, ok := call.Args[0].(*ast.MapType); ok && i < len(v.Lhs) {
+									if l, ok := v.Lhs[i].(*ast.Ident); ok {
+										genMapKeyTypes[l.Name] = mt.Key
+									}
+								}
+							}
+						}
+						if cl, ok := rhs.(*ast.CompositeLit); ok {
+							if mt, ok := cl.Type.(*ast.MapType); ok && i < len(v.Lhs) {
+								if l, ok := v.Lhs[i].(*ast.Ident); ok {
+									genMapKeyTypes[l.Name] = mt.Key
+								}
+							}
+						}
+					}
+				case *ast.ValueSpec:
+					if mt, ok := v.Type.(*ast.MapType); ok {
+						for _, nm := range v.Names {
+							genMapKeyTypes[nm.Name] = mt.Key
+						}
+					}
+				}
+				return true
+			})
+		}
+	}
+}
+
+func lastName(e ast.Expr) string {
+	switch v := e.(type) {
+	case *ast.Ident:
+		return v.Name
+	case *ast.SelectorExpr:
+		return v.Sel.Name
+	case *ast.ParenExpr:
+		return lastName(v.X)
+	}
+	return ""
+}
+
+// ownGenMaps rewrites `for k, v := range M` (M a known map of package gen) into iteration over
+// zvorder.Keys(M), so that the explorer owns the order.
+func (r *rw) ownGenMaps() {
+	const pOrder = "github.com/xelaj/mtproto/internal/cmd/tlgen/zvorder"
+	ast.Inspect(r.file, func(n ast.Node) bool {
+		rs, ok := n.(*ast.RangeStmt)
+		if !ok || rs.Tok != token.DEFINE && rs.Key != nil {
+			return true
+		}
+		keyT, known := genMapKeyTypes[lastName(rs.X)]
+		if !known {
+			return true
+		}
+		r.tmp++
+		kv := fmt.Sprintf("vmk%d", r.tmp)
+		var pre []ast.Stmt
+		keyName := fmt.Sprintf("vmkey%d", r.tmp)
+		if id, ok := rs.Key.(*ast.Ident); ok && rs.Key != nil && id.Name != "_" {
+			keyName = id.Name
+		}
+		pre = append(pre, &ast.AssignStmt{Lhs: []ast.Expr{ast.NewIdent(keyName)}, Tok: token.DEFINE,
+			Rhs: []ast.Expr{&ast.TypeAssertExpr{X: ast.NewIdent(kv), Type: keyT}}})
+		pre = append(pre, &ast.AssignStmt{Lhs: []ast.Expr{ast.NewIdent("_")}, Tok: token.ASSIGN, Rhs: []ast.Expr{ast.NewIdent(keyName)}})
+		if rs.Value != nil {
+			if id, ok := rs.Value.(*ast.Ident); !ok || id.Name != "_" {
+				pre = append(pre, &ast.AssignStmt{Lhs: []ast.Expr{rs.Value}, Tok: token.DEFINE,
+					Rhs: []ast.Expr{&ast.IndexExpr{X: rs.X, Index: ast.NewIdent(keyName)}}})
+			}
+		}
+		rs.Body.List = append(pre, rs.Body.List...)
+		rs.Key, rs.Value = ast.NewIdent("_"), ast.NewIdent(kv)
+		rs.Tok = token.DEFINE
+		rs.X = &ast.CallExpr{Fun: &ast.SelectorExpr{X: ast.NewIdent("zvorder"), Sel: ast.NewIdent("Keys")}, Args: []ast.Expr{rs.X}}
+		r.needImp[pOrder] = "zvorder"
+		r.changed = true
+		inv.MapRanges++
 		return true
 	})
 }
